@@ -275,6 +275,8 @@ def finish(prop, tier, seed, level, results, rule, t0, monitors, extra_cov=None,
 
 
 def write_evidence(prop, ev):
+    if os.environ.get("VERIF_PARTIAL"):
+        return
     d = os.path.join(VERIF, "evidence")
     os.makedirs(d, exist_ok=True)
     try:
